@@ -5,6 +5,7 @@ CONSTANTS
   NS = 1
   NB = 1
   MaxDepth = 3
+  UseSystematic = FALSE
   UsePreludes = FALSE
   WKey = 1
   WEnv = 1
